@@ -238,7 +238,7 @@ fn validity(rec: &mut Recorder, rng: &mut impl Rng, n: usize) {
 
 pub fn record_c09(rec: &mut Recorder, seed: u64, thorough: bool) {
     let mut r = rng(seed, 9);
-    let n = if thorough { 600 } else { 120 };
+    let n = if thorough { 900 } else { 240 };
     conversions::<Dna>(rec, &mut r, n);
     conversions::<Protein>(rec, &mut r, n / 3);
     counting::<Dna>(rec, &mut r, n);
@@ -260,7 +260,7 @@ fn grid_rows(m: &DenseMatrix<f32, U5>, s: u32) -> Vec<Vec<Value>> {
 pub fn record_c10(rec: &mut Recorder, seed: u64, thorough: bool) {
     type A = Dna;
     let mut rng = rng(seed, 10);
-    let n = if thorough { 400 } else { 100 };
+    let n = if thorough { 600 } else { 200 };
     for it in 0..n {
         let m = if it < 31 { it } else { rng.gen_range(1..=30) };
         // ---- cell-wise reverse complement of the four matrix types, applied once and twice
